@@ -241,6 +241,16 @@ def submodule_cases():
     bad = {k: v for k, v in got.items() if v != "private"}
     if bad:
         return {"confirmed": True, "input": {"source": text}, "actual": bad, "expected": {k: "private" for k in bad}, "how": "real parser: accessibility of the entities of a submodule"}
+    # ... also after correlation, for both spellings of a separate module procedure's implementation (the interface in the ancestor module is public)
+    text2 = ("module par\n  implicit none\n  interface\n    module subroutine one()\n    end subroutine one\n    module subroutine two()\n    end subroutine two\n  end interface\nend module par\n"
+             "submodule (par) impl\ncontains\n  module subroutine one()\n  end subroutine one\n  module procedure two\n  end procedure two\nend submodule impl\n")
+    proj = realrun.build_project({"src/p.f90": text2}, display=["public", "private", "protected"])
+    sub = proj.submodules[0]
+    got2 = {p.name: p.permission for l in ("subroutines", "functions", "modsubroutines", "modfunctions", "modprocedures") for p in getattr(sub, l, [])}
+    bad2 = {k: v for k, v in got2.items() if v != "private"}
+    if bad2 or set(got2) != {"one", "two"}:
+        return {"confirmed": True, "input": {"source": text2}, "actual": got2, "expected": {"one": "private", "two": "private"},
+                "how": "real pipeline (parse + correlate): accessibility of the implementations of separate module procedures in a submodule"}
     return None
 
 
